@@ -35,3 +35,11 @@ package perunio
 //@ func Encode
 //@   trusted
 //@   requires writer != nil
+
+// EqualBinary compares the binary encodings of two values; binEq(a, b): both marshal without error to equal bytes
+// (for channel data this is the relation dataEq of the Data interface contract).
+//@ ghost func binEq(a encoding.BinaryMarshaler, b encoding.BinaryMarshaler) bool
+//@ func EqualBinary
+//@   trusted
+//@   ensures (result0 && result1 == nil) <==> binEq(a, b)
+//@   ensures result1 != nil ==> !result0
